@@ -25,6 +25,16 @@ CHECKS = {
     category="model_checking", design_ref="4 C15",
     text="TLC checks the merge/complement/canonical/size/sort/axes laws for every pair of domains over 4 attributes (sizes 2,3,1,2; all attribute orders) and the commutation law Vector(project(D,s)) = transpose(marg(Vector(D))) for every record bag of size <= 3 (thorough 4) x weights x every projection sequence; each enumerated state is executed on the real Domain/Dataset (frame columns permuted, with/without an unused column, ndarray weights, list/tuple/str spellings) and compared with ==.",
     note="Dataset projection onto the empty attribute list is not exercised. pandas/numpy histogramdd are observed, not modelled."),
+ "C02": dict(
+    technique="TLA+ specs of the query API (spec/query/ModelQuery.tla call histories x cache states; VarElim.tla all elimination orders; PairChain.tla bulk recurrence with a non-RIP negative control) model-checked by TLC; every behaviour replayed on one GraphicalModel against the explicit integer joint",
+    category="model_checking", design_ref="4 C02",
+    text="TLC enumerates, for 9 (thorough 13) clique structures, every attribute sequence (all subsets x orders, incl. empty and full) in both cache states and all call histories of length 2 (thorough 3) over project / calculate_many_marginals / krondot / datavector / save+load, checking HistoryFree and SumsToZ; VarElim.tla shows every elimination order yields the joint's marginal; PairChain.tla shows the bulk recurrence holds on the implementation's trees and fails on a tree without running intersection. Each history is replayed on one real model object (random elimination order, domain order, total) and every answer compared at 1e-9 with the integer marginal x total/Z in the requested axis order; cache/pair/ve path coverage is measured.",
+    note="Spec->code only (the API exposes the full abstract state, so no recorded-trace direction). numpy backend; krondot not claimed robust to huge potentials."),
+ "C04": dict(
+    technique="TLA+ integer model of the loss, gradient and smoothness constant (spec/est/Loss.tla) checked by TLC (ExactlyOnce, GradIsDerivative by exact central differences, SmoothnessBound by Rayleigh quotients); expected values compared with _marginal_loss/_lipschitz/groups for every measurement spelling",
+    category="model_checking", design_ref="4 C04",
+    text="Seeded measurement sets over 3-attribute domains (catalogue of 8 integer query matrices, noise 1/2,1,2, projections in any order incl. both orders of a pair) are checked in Loss.tla by TLC: each measurement counted once, the spec gradient is the exact finite difference of the spec loss, and v'Hv <= L v'v on every clique block for all directions in {-1,0,1,2}^cells. The real engine must reproduce the spec's L2 and L1 loss and joint-level gradient for dense/sparse/operator/None x str/list/tuple spellings, its own gradient must be the exact central difference of its own loss, and _lipschitz must dominate the Hessian assembled from its own gradients.",
+    note="Noise scales and matrices restricted so the spec loss is an integer; eigsh accuracy observed; custom callable metrics out of scope."),
 }
 
 NOT_YET = "check not built yet (work in progress, see DESIGN.md section 8 build order)"
